@@ -319,6 +319,13 @@ structure UnwindOpts where
   preserve : Bool
   index : Option String         -- `includeArrayIndex` when truthy
 
+/-- `_set_index(doc, index)`: the index field written where the dotted name says, every parent
+    that is not a dict (missing, scalar, list) replaced by `{}` — the walk of `$addFields` -/
+def setIndex (d : Val) (ix : String) (v : Val) : R Val :=
+  match d with
+  | .doc fs => .ok (.doc (nestedSet fs (splitDots ix) v))
+  | _ => unmodelled                               -- `parent.get` on something that is no dict
+
 /-- one output document for the item `item` at position `idx` (`none` = the value was no list) -/
 def unwindItem (o : UnwindOpts) (d : Val) (idx : Option Nat) (item : Val) : R Val :=
   match setByDot d o.path item with
@@ -326,7 +333,7 @@ def unwindItem (o : UnwindOpts) (d : Val) (idx : Option Nat) (item : Val) : R Va
   | .ok nd =>
     match o.index with
     | none => .ok nd
-    | some ix => setByDot nd ix (match idx with | some i => .int i | none => .null)
+    | some ix => setIndex nd ix (match idx with | some i => .int i | none => .null)
 
 def unwindItems (o : UnwindOpts) (d : Val) : Nat → List Val → R (List Val)
   | _, [] => .ok []
@@ -338,14 +345,24 @@ def unwindItems (o : UnwindOpts) (d : Val) : Nat → List Val → R (List Val)
       | .error e => .error e
       | .ok r => .ok (nd :: r)
 
+/-- `_preserved(doc)`: a document kept by `preserveNullAndEmptyArrays` gets a null index -/
+def preserved (o : UnwindOpts) (d : Val) : R Val :=
+  match o.index with
+  | none => .ok d
+  | some ix => setIndex d ix .null
+
 /-- the body of the loop of `_handle_unwind_stage` for one document -/
 def unwindDoc (o : UnwindOpts) (d : Val) : R (List Val) :=
   match getByDot d o.path with
-  | .error .keyErr => .ok (if o.preserve then [d] else [])
+  | .error .keyErr => if o.preserve then (preserved o d).map (fun nd => [nd]) else .ok []
   | .error e => .error e
-  | .ok .null => .ok (if o.preserve then [d] else [])
+  | .ok .null => if o.preserve then (preserved o d).map (fun nd => [nd]) else .ok []
   | .ok (.arr []) =>
-    if o.preserve then (delByDot d o.path).map (fun nd => [nd]) else .ok []
+    if o.preserve then
+      match delByDot d o.path with
+      | .error e => .error e
+      | .ok nd => (preserved o nd).map (fun nd' => [nd'])
+    else .ok []
   | .ok (.arr xs) => unwindItems o d 0 xs
   | .ok v => (unwindItem o d none v).map (fun nd => [nd])
 
